@@ -374,7 +374,7 @@ impl Sbrm {
         sbrm_addr: u64,
     ) -> ControlResult<Self> {
         let (capability_offset, capability_len) = sbrm::U3VCP_CAPABILITY_REGISTER;
-        let capability_addr = capability_offset + sbrm_addr;
+        let capability_addr = register_address(sbrm_addr, capability_offset)?;
         let capability = read_register(device, capability_addr, capability_len)?;
 
         Ok(Self {
@@ -533,7 +533,7 @@ impl Sbrm {
         Ctrl: DeviceControl + ?Sized,
     {
         let (offset, len) = register;
-        let addr = offset + self.sbrm_addr;
+        let addr = register_address(self.sbrm_addr, offset)?;
         read_register(device, addr, len)
     }
 }
@@ -760,7 +760,7 @@ impl Sirm {
         Ctrl: DeviceControl + ?Sized,
     {
         let (offset, len) = register;
-        let addr = offset + self.sirm_addr;
+        let addr = register_address(self.sirm_addr, offset)?;
         read_register(device, addr, len)
     }
 
@@ -771,7 +771,7 @@ impl Sirm {
         data: impl DumpBytes,
     ) -> ControlResult<()> {
         let (offset, len) = register;
-        let addr = self.sirm_addr + offset;
+        let addr = register_address(self.sirm_addr, offset)?;
         let mut buf = vec![0; len as usize];
         data.dump_bytes(&mut buf)?;
         device.write(addr, &buf)
@@ -798,7 +798,16 @@ impl ManifestTable {
         device: &mut Ctrl,
     ) -> ControlResult<impl Iterator<Item = ManifestEntry>> {
         let entry_num: u64 = self.read_register(device, (0, 8))?;
-        let first_entry_addr = self.manifest_address + 8;
+        let first_entry_addr = register_address(self.manifest_address, 8)?;
+        // Make sure that all entries are addressable before handing out the iterator.
+        entry_num
+            .checked_mul(64)
+            .and_then(|table_size| first_entry_addr.checked_add(table_size))
+            .ok_or_else(|| {
+                ControlError::InvalidDevice(
+                    "manifest table doesn't fit into the address space".into(),
+                )
+            })?;
 
         Ok((0..entry_num).map(move |i| ManifestEntry::new(first_entry_addr + i * 64)))
     }
@@ -812,7 +821,8 @@ impl ManifestTable {
         T: ParseBytes,
     {
         let (offset, len) = register;
-        read_register(device, offset + self.manifest_address, len)
+        let addr = register_address(self.manifest_address, offset)?;
+        read_register(device, addr, len)
     }
 }
 
@@ -876,7 +886,7 @@ impl ManifestEntry {
     ) -> ControlResult<Option<[u8; 20]>> {
         // We don't use `self.read_register` here for perf.
         let mut sha1_hash: [u8; 20] = [0; 20];
-        let addr = self.entry_addr + manifest_entry::SHA1_HASH.0;
+        let addr = register_address(self.entry_addr, manifest_entry::SHA1_HASH.0)?;
         device.read(addr, &mut sha1_hash)?;
 
         // All bytes are 0 in case the hash is not available.
@@ -893,9 +903,17 @@ impl ManifestEntry {
         Ctrl: DeviceControl + ?Sized,
     {
         let (offset, len) = register;
-        let addr = offset + self.entry_addr;
+        let addr = register_address(self.entry_addr, offset)?;
         read_register(device, addr, len)
     }
+}
+
+/// Returns the address of the register located at `offset` in the register map starting at
+/// `base`.
+fn register_address(base: u64, offset: u64) -> ControlResult<u64> {
+    base.checked_add(offset).ok_or_else(|| {
+        ControlError::InvalidDevice("register address exceeds the 64 bit address space".into())
+    })
 }
 
 /// Reads and parses register value.
